@@ -16,6 +16,9 @@ let rec nat_of_int (i : int) : nat = if i <= 0 then O else S (nat_of_int (i - 1)
 let int_of_nat (x : nat) : int =
   let rec go acc = function O -> acc | S k -> go (acc + 1) k in go 0 x
 
+let int_of_z (x : z) : int = match x with Z0 -> 0 | Zpos p -> int_of_pos p | Zneg p -> - (int_of_pos p)
+let z_of_int (i : int) : z = if i = 0 then Z0 else if i > 0 then Zpos (pos_of_int i) else Zneg (pos_of_int (-i))
+
 (* ---- field glue ------------------------------------------------------------- *)
 let text_of_field (f : string) : n list option =
   if f = "-" then None
